@@ -12,7 +12,7 @@ for d in sorted(glob.glob("/verif/seeded/*")):
     m = json.load(open(os.path.join(d, "meta.json")))
     out.append("| `%s` | %s | %s | %s |" % (os.path.basename(d), m["property"], m["needs_to_manifest"].replace("|", "/"), m["caught_by"].replace("|", "/")))
 out.append("")
-out.append("Where \"check strengthened after this seed\" is noted, the check as first built did not report the seed; the gap and the added exploration are described in DESIGN.md §5/§11. One seed (C01, coin rounds) is reported by C03 only: the schedule exploration behind C01 does not reach coin rounds within its bounds.\n")
+out.append("Where \"check strengthened after this seed\" is noted, or the entry names a scenario that DESIGN.md §5 \"As built\" attributes to the seed, the check as first built did not report the seed; the gap and the added exploration are described there. Seeds marked \"not detected\" are outside what the checks explore, for the reasons given in DESIGN.md §6 (two seeds of round 4: a store read fault inside a consensus pass, and an in-memory cache smaller than a silent validator's history – regimes in which the unchanged tree fails as well). `C02-reset-keeps-blocks` can no longer be reached since fix 74088e2 removed the path it needed. The last regression of every stored seed against the current checks is summarised in `tools/seed_regression.txt`.\n")
 out.append("## 2. Own mutation demonstrations\n")
 out.append("One deliberate edit per property (several for some), taken from the \"Detects\" lists of DESIGN.md §5, each run against the property's quick check with a 80–90 s budget (`tools/mutations.py`). The repository test-suite was not re-run for these (the independently seeded changes above are the ones validated against it).\n")
 out.append("| id | property | file | change | check result | first report |")
